@@ -235,6 +235,19 @@ def run(cx):
     st_ext = [c for c in walk_local(ef) if isinstance(c, ast.Call) and norm(c.func) == "setup_lines.extend"]
     r.check(len(st_ext) == 1 and norm(kwarg(st_ext[0].args[0], "in_setup") or ast.Constant(0)) == "True" and norm(st_ext[0].args[0].args[0]) == "setup_body or []", "emit/setup-lines-from-_emit_block(setup_body,in_setup=True)", (em, ef), "setup() statements must come from _emit_block(setup_body, in_setup=True)")
 
+    # two sensors that share a trigger pin: each still gets its own echo pin configured (before the loop and at the top of it)
+    for place in ("before-loop", "top-of-loop"):
+        ua = l2.decl_node("Ultrasonic", name="ua", trig=10, echo=11)
+        ub = l2.decl_node("Ultrasonic", name="ub", trig=10, echo=12)
+        use_ = [cls["VarAssign"](name="v", expr="__redu_ultrasonic_measure_ua()"), cls["VarAssign"](name="v", expr="__redu_ultrasonic_measure_ub()")]
+        gl_ = [cls["VarDecl"](name="v", c_type="float", expr="0", global_scope=True)]
+        res = pe.emit_program(setup=[ua, ub] if place == "before-loop" else [], loop=([] if place == "before-loop" else [ua, ub]) + use_, global_decls=gl_, ultrasonic={"ua", "ub"})
+        if res.raised:
+            raise AnalysisError(f"emit() raises for two ultrasonic sensors ({place})")
+        sc_ = flat_calls(l2.functions_of(res.text, ["setup"])["setup"][0]["body"])
+        modes_ = {show(call_args(c)[0]): show(call_args(c)[1]) for c in sc_ if callee(c) == "pinMode"}
+        r.check(modes_.get("11") == "0" and modes_.get("12") == "0" and modes_.get("10") == "1", f"Ultrasonic[two-sensors-one-trigger,{place}]/every-echo-pin-configured", (em, em.func("emit")), f"two sensors on trigger pin 10 with echo pins 11 and 12 ({place}): setup() configures {modes_}; both echo pins must be INPUT and the trigger OUTPUT")
+
     # ---- C05-EXTENT (shared with C07): where the `while True:` body ends decides what runs once and what runs per pass ----
     from . import c07
     c07.rule_extent(cx, "C05-EXTENT")
@@ -246,5 +259,11 @@ def run(cx):
     r.check([show(c) for c in flat_calls(f["setup"][0]["body"])] == ["delay(11)", "delay(12)"], "emit/setup-statements-once-in-order", (em, ef), "setup body not emitted exactly once in order")
     r.check([show(c) for c in flat_calls(f["loop"][0]["body"])] == ["delay(21)", "delay(22)"], "emit/loop-statements-once-in-order", (em, ef), "loop body not emitted exactly once in order")
     r.check(res.text.count("void setup()") == 1 and res.text.count("void loop()") == 1, "emit/one-setup-one-loop", (em, ef), "setup()/loop() emitted more than once")
+    # the body of the main loop is re-executed on every pass: a first assignment at the top of it (`total = 0`) is an ordinary
+    # local declaration, never a `static` one that would keep last pass's value
+    for ct_, ex_ in (("int", "0"), ("float", "0.0"), ("bool", "false"), ("String", '""'), ("int", "5")):
+        res = pe.emit_program(setup=[], loop=[cls["VarDecl"](name="acc", c_type=ct_, expr=ex_, global_scope=False), cls["VarAssign"](name="acc", expr="(acc)")])
+        lt_ = res.text[res.text.index("void loop()"):] if res.text and "void loop()" in res.text else ""
+        r.check(f"  {ct_} acc = {ex_};" in lt_ and "static" not in lt_, f"emit/loop-local[{ct_} = {ex_}]-reinitialised-every-pass", (em, em.func("_emit_block")), f"`acc = {ex_}` at the top of the main loop is emitted as `{next((l_.strip() for l_ in lt_.split(chr(10)) if ' acc =' in l_), '?')}`: it must be a plain local initialised on every loop() pass")
     empty = pe.emit_program(setup=[], loop=[])
     r.check("// no setup actions" in empty.text and "// no loop actions" in empty.text, "emit/empty-bodies-still-well-formed", (em, ef), "empty sketch shape changed")
